@@ -157,13 +157,13 @@ for root in (1, 0):
        desc="attr_path_parse on ALL byte strings of 7 characters (%s path), real table sizes: accepted <=> documented syntax, component count, no memory error, no leak" % rn)
     ob("apath.parse.scaled.n7.%s" % rn, "apath/apath.c", ["-DNSTR=7", "-DROOT=%d" % root], ["C19", "C10"], unwind=12, scaled=SC,
        desc="same on the scaled twin (ATTR_PATH_COMP_MAX 64->3, ATTR_PATH_NAME_MAX 255->6): the component-count and name-length limits are inside the bound (%s path)" % rn)
-    ob("apath.print.scaled.n5.%s" % rn, "apath/apath.c", ["-DNSTR=5", "-DWITH_PRINT", "-DROOT=%d" % root], ["C19"], unwind=10, scaled=SC,
+    ob("apath.print.scaled.n4.%s" % rn, "apath/apath.c", ["-DNSTR=4", "-DWITH_PRINT", "-DROOT=%d" % root], ["C19"], unwind=10, scaled=SC,
+       desc="parse -> to_str -> parse round trip, attr_path_len, equal_str on all 4-character strings (%s path)" % rn)
+    ob("apath.print.scaled.n5.%s" % rn, "apath/apath.c", ["-DNSTR=5", "-DWITH_PRINT", "-DROOT=%d" % root], ["C19"], unwind=10, scaled=SC, tier="thorough", timeout=3000, mem_gb=30,
        desc="parse -> to_str -> parse round trip, attr_path_len, equal_str on all 5-character strings (%s path)" % rn)
     ob("apath.parse.scaled.n9.%s" % rn, "apath/apath.c", ["-DNSTR=9", "-DROOT=%d" % root], ["C19", "C10"], unwind=14, tier="thorough", timeout=2400,
        scaled=[("libxcm/core/attr_path.h", "ATTR_PATH_COMP_MAX", 4), ("libxcm/core/attr_path.h", "ATTR_PATH_NAME_MAX", 8), ("libxcm/core/attr_path.c", None, None)],
        desc="scaled twin (COMP_MAX 4, NAME_MAX 8), all 9-character strings (%s path)" % rn)
-    ob("apath.print.scaled.n7.%s" % rn, "apath/apath.c", ["-DNSTR=7", "-DWITH_PRINT", "-DROOT=%d" % root], ["C19"], unwind=12, scaled=SC, tier="thorough", timeout=2400, mem_gb=30,
-       desc="round trip on all 7-character strings (%s path)" % rn)
 
 # --------------------------------------------------------------------------
 # C10: framework half (xcm.c + attr_tree.c + attr_node.c + attr_path.c over worst-case mock getters/setters)
@@ -240,3 +240,23 @@ for p in ("C02", "C06", "C17", "C11", "C04", "C16"):
     PROPERTY_META.setdefault(p, {"assumptions": [], "trusted_base": []})
     PROPERTY_META[p].setdefault("assumptions", [])
     PROPERTY_META[p]["assumptions"] += _btcp_assumptions
+
+# --------------------------------------------------------------------------
+# ux / uxf: xcm_tp_ux.c over KERNEL-SEQPACKET and the KERNEL-FD ghost table
+# --------------------------------------------------------------------------
+UX = {
+    "SEND": (["C01", "C03", "C05", "C06", "C17"], "ux_send: size checks first, one send(MSG_EOR|MSG_NOSIGNAL), all-or-nothing, counters move iff accepted"),
+    "RECV": (["C01", "C06", "C17"], "ux_receive: one recv(MSG_TRUNC), returns min(record, capacity), to_app counts the delivered bytes"),
+    "UPDATE": (["C04", "C16"], "ux_update: epoll mask = map(awaited condition) for connections and servers"),
+    "LIFE_SERVER": (["C08", "C05"], "ux_init -> ux_server with socket/setsockopt/bind/listen failing at will -> (close | cleanup): every descriptor closed exactly once, registrations deleted, socket file unlinked iff owner"),
+    "LIFE_CONNECT": (["C08", "C05"], "ux_init -> ux_connect with every system call failing at will -> (close | cleanup)"),
+    "LIFE_ACCEPT": (["C08", "C05"], "ux_accept with accept failing at will, then close of the accepted connection"),
+    "ADDR": (["C10"], "xcm.local_addr / xcm.remote_addr retrieval for any name length and bytes the kernel may report (sockaddr_un up to 110 bytes)"),
+}
+for op, (props, d) in UX.items():
+    for fl, nm in (([], "ux"), (["-DUXF"], "uxf")):
+        ob("%s.%s" % (nm, op.lower()), "ux/ux.c", ["-DOP_" + op] + fl, props, unwind=112, desc=d + " (%s)" % nm)
+for p in ("C01", "C03", "C08", "C17"):
+    PROPERTY_META.setdefault(p, {"assumptions": [], "trusted_base": []})
+    PROPERTY_META[p].setdefault("assumptions", [])
+    PROPERTY_META[p]["assumptions"] += ["ux/uxf over KERNEL-SEQPACKET (send with MSG_EOR is all-or-nothing; recv with MSG_TRUNC returns the real record length) and a KERNEL-FD ghost table in which socket/setsockopt/bind/listen/connect/accept fail at the solver's choice"]
